@@ -127,7 +127,19 @@ def run(ctx):
         ctx.analysed_fns.add(k)
         if k == CTOR:
             continue  # its asserts are dead when every caller establishes the guards (checked below)
-        ps = [p for p in panic_sites(f) if not (p[1].startswith("Assert:") and False)]
+        ps = []
+        for site in panic_sites(f):
+            (bi, kind, detail, span) = site
+            if kind in ("Assert:Overflow:Shl", "Assert:Overflow:Shr"):
+                # discharged when the dominating facts bound the shift amount below the bit width
+                tbf = TermBuilder(f, prog)
+                amt = tbf.operand(f.blocks[bi].term.cond, bi, len(f.blocks[bi].stmts))
+                if amt[0] == "op" and amt[1] == "Lt" and amt[2][1][0] == "const":
+                    lo_, hi_ = int_bounds(atomic_facts(f, prog, bi, tbf), amt[2][0])
+                    if hi_ is not None and hi_ < amt[2][1][1]:
+                        ctx.ok("R20-no-panic-on-input", "%s:%s" % (k, kind), "shift-amount check is dead: dominating facts give %s <= %s < %s" % (fmt(amt[2][0]), hi_, amt[2][1][1]))
+                        continue
+            ps.append(site)
         for (bi, kind, detail, span) in ps:
             n_sites += 1
             ctx.fail("R20-no-panic-on-input", "%s:%s" % (k, kind), span, "deserialisation code can panic (%s%s) instead of returning Err" % (kind, " " + detail if detail else ""))
